@@ -7,7 +7,8 @@ SPEC = {
     'coq_targets': ['theories/Properties/C01.vo', 'theories/Properties/C01_compose.vo', 'theories/C01/Corr.vo'],
     'closure_dirs': ['theories/C01', 'theories/Generic', 'theories/Wire/Item.v', 'theories/Base/Outcome.v', 'theories/Gen/Consts.v',
                      'theories/Base/Word.v', 'theories/Base/FBits.v', 'theories/Gen/Leaf.v',
-                     'theories/Wire/Simple.v', 'theories/Wire/SimpleProofs.v'],
+                     'theories/Wire/Simple.v', 'theories/Wire/SimpleProofs.v',
+                     'theories/Wire/Msgpack.v', 'theories/Wire/MsgpackProofs.v', 'theories/Wire/MsgpackRT.v'],
     'harness': 'c01',
     'args': {
         'quick': ['-model', 600, '-oracle', 4000],
